@@ -193,7 +193,9 @@ def mon_c17_racesuite(case, verdict, chk):
     chk.hist[tag] = chk.hist.get(tag, 0) + 1
     replay = {"kind": "impl-counterexample", "sites": case.get("sites"), "report": case.get("report"), "static_table": an["static"],
               "created": [c.get("site_func") for c in case.get("created") or []],
-              "replay_harness": ["racesuite", "-seed", str(chk.seed), "-n", "40"]}
+              "replay_harness": case.get("replay_harness") or ["racesuite", "-seed", str(chk.seed), "-n", "40"]}
+    if case.get("case"):
+        replay["case"] = case["case"]  # streams that run one case per child process: the concrete input of the report
     if an["class"] == "engine":
         chk.violation(an["fingerprint"], "data race on engine memory (%s): %s; static table: %s" % (
             an["field"] or "field unknown", " <-> ".join(case.get("sites") or []), "; ".join(an["static"])), replay)
@@ -204,6 +206,48 @@ def mon_c17_racesuite(case, verdict, chk):
         note = "race outside the engine (%s, not counted): %s" % (an["class"], " <-> ".join(case.get("sites") or []))
         if note not in chk.notes and len([n for n in chk.notes if n.startswith("race outside the engine")]) < 6:
             chk.notes.append(note)
+
+
+def _seq_case(case):
+    """the sequence as a replay: workflow text, documents, runs"""
+    docs = [{k: d.get(k) for k in ("index", "role", "doc", "expect_valid", "violation_kind", "violation_path")} for d in case.get("docs") or []]
+    runs = [{k: r.get(k) for k in ("n", "phase", "overlap", "doc", "cancel_after_ms", "result")} for r in case.get("runs") or []]
+    for r in runs:
+        res = r.get("result") or {}
+        r["result"] = {k: res.get(k) for k in ("returned", "output_id", "err_class")}
+    return {"id": case.get("id"), "workflow_yaml": case.get("yaml"), "steps": case.get("steps"), "documents": docs, "runs": runs}
+
+
+def mon_c17_seq(case, verdict, chk):
+    """race-detector build of the `inputseq` stream (one child process per case): a first run, then overlapping runs with
+    differently shaped documents, refused and cancelled runs in between.  Every report of the child belongs to that case."""
+    kind = case.get("kind")
+    if kind != "inputseq":
+        return
+    idx = case.get("id", "inputseq-0-0").split("-")
+    rh = ["inputseq", "-n", str(int(idx[-1]) + 1), "-skip", idx[-1], "-seed", idx[1] if len(idx) > 2 else "1", "-child", "self"]
+    chk.hist["scenario:input-sequence"] = chk.hist.get("scenario:input-sequence", 0) + 1
+    if case.get("crash") and "atpServerSession" not in case["crash"]:
+        chk.notes.append("inputseq (race build): child crashed in %s: %s" % (case.get("id"), case["crash"][:200]))
+    if case.get("hung"):
+        chk.notes.append("inputseq (race build): a run never returned in %s (reported by the checks of C14 / C19)" % case.get("id"))
+    for k, rec in enumerate(case.get("race_reports") or []):
+        rec = dict(rec)
+        rec["kind"] = "race"
+        rec["case"] = _seq_case(case)
+        rec["replay_harness"] = rh
+        mon_c17_racesuite(rec, None, chk)
+
+
+def mon_c17_conc(case, verdict, chk):
+    """race-detector build of the concurrency leg of the built-in functions (one child process per function)"""
+    if case.get("kind") == "builtin-conc":
+        tag = "scenario:builtins-concurrent"
+        chk.hist[tag] = chk.hist.get(tag, 0) + 1
+        if case.get("crash"):
+            chk.notes.append("builtins-conc (race build): child crashed in %s: %s" % (case.get("id"), case["crash"][:200]))
+        return
+    mon_c17_racesuite(case, verdict, chk)
 
 
 def racesuite_n(tier):
@@ -234,12 +278,30 @@ SPEC = {
         _stream("racesuite", []),
         # the statically predicted candidates (today F10d) under a pure delay; stop_if scenarios reach plugin closedEarly
         _stream("racesuite-delay", ["-scenario", "stopif-cancel"], overlay=lambda facts: delay_overlay(facts), seed_off=100),
+        # one prepared workflow: a completed first run, then overlapping runs whose documents reach nested optional objects for the
+        # first time, refused / cancelled runs in between (every case in its own child process: the reports belong to the case)
+        {"name": "inputseq-race", "race": True,
+         "harness": lambda t, s: ["inputseq", "-n", "60" if t == "thorough" else "10", "-seed", str(s + 7), "-tier", t, "-child", "self"],
+         "driver": None, "monitor": mon_c17_seq,
+         "nontrivial": lambda c: c.get("kind") == "inputseq" and not c.get("skip") and not c.get("crash"),
+         "sample": lambda c: {k: c.get(k) for k in ("id", "kind", "n_runs", "hung")}},
+        # engine code shared between goroutines: the function table of builtinfunctions.GetFunctions() (parallel foreach items,
+        # independent steps); per function 4 goroutines with fixed arguments
+        {"name": "builtins-conc-race", "race": True,
+         "harness": lambda t, s: ["builtins-conc", "-n", "60" if t == "thorough" else "20", "-seed", str(s + 3), "-tier", t,
+                                  "-child", "self", "-g", "4", "-iters", "400"],
+         "driver": None, "monitor": mon_c17_conc,
+         "nontrivial": lambda c: c.get("kind") == "builtin-conc" and not c.get("skip") and not c.get("crash"),
+         "sample": lambda c: {k: c.get(k) for k in ("id", "kind", "fn", "calls", "mismatches", "sites")}},
     ],
     "rule": ("race-detector build of the harness, one process per stream, GORACE halt_on_error=0 with all reports collected: generated "
              "engine cases (hanging steps, cancellation at a random instant), 3-4 overlapping Execute calls on one prepared workflow, "
              "foreach steps with concurrent items, stop_if firing while the stopped step waits or runs, termination overlapping late "
              "callbacks; second stream: the same stop_if scenarios on a build with a pure delay behind every access the static table "
-             "leaves unlocked and un-allowlisted (distinct = run id; non-trivial = the run was executed)"),
+             "leaves unlocked and un-allowlisted (distinct = run id; non-trivial = the run was executed); third stream: sequences of runs "
+             "on one prepared workflow over generated input schemas with optional nested objects (first run without them, then overlapping "
+             "runs with them, refused and cancelled runs in between), one child process per case; fourth stream: every built-in function "
+             "called by 4 goroutines at once (the function table is shared by parallel foreach items)"),
 }
 
 
